@@ -651,6 +651,10 @@ class Manager:
             except KeyboardInterrupt:
                 self.stop()
             except SystemExit as e:
+                if not self.running:
+                    # stop(code) called by the handler itself has done the
+                    # stopping already: let the exit code travel on to run()
+                    raise
                 self.stop(e.code)
             except BaseException:
                 value = err = _exc_info()
@@ -869,6 +873,8 @@ class Manager:
         except KeyboardInterrupt:
             self.stop()
         except SystemExit as e:
+            if not self.running:
+                raise
             self.stop(e.code)
         except BaseException:
             self.unregisterTask((event, task, parent))
